@@ -98,13 +98,14 @@ Qed.
 (** ---------- the loop *)
 Section Loop.
 Variable lang : Z.
+Variable yg : bool.
 Variable exs : list str.
 Variable pe : bool.
 
-Lemma year_loop_years asset gs : forall p q, map em_year (year_loop lang exs pe asset p q gs) = map fst gs.
+Lemma year_loop_years asset gs : forall p q, map em_year (year_loop lang yg exs pe asset p q gs) = map fst gs.
 Proof. induction gs as [|[y l] gs IH]; intros p q; cbn [year_loop map fst em_year]; [reflexivity|]. rewrite IH. reflexivity. Qed.
 
-Lemma year_loop_in asset gs : forall p q e, In e (year_loop lang exs pe asset p q gs) ->
+Lemma year_loop_in asset gs : forall p q e, In e (year_loop lang yg exs pe asset p q gs) ->
   em_asset e = asset /\ exists l, In (em_year e, l) gs /\ em_txs e = sort_by t_us l.
 Proof.
   induction gs as [|[y l] gs IH]; intros p q e H; cbn [year_loop In] in H; [contradiction|].
@@ -119,10 +120,10 @@ Fixpoint chained (prev_off prev_year : Z) (l : list emission) : Prop :=
   match l with
   | [] => True
   | e :: t => em_prev_off e = prev_off /\ (pe = true -> em_prev_year e = prev_year) /\ (pe = false -> em_prev_year e = em_year e - 1)
-              /\ chained (em_return lang exs e) (em_year e) t
+              /\ chained (em_return lang yg exs e) (em_year e) t
   end.
 
-Lemma year_loop_chained asset gs : forall p q, chained p q (year_loop lang exs pe asset p q gs).
+Lemma year_loop_chained asset gs : forall p q, chained p q (year_loop lang yg exs pe asset p q gs).
 Proof.
   induction gs as [|[y l] gs IH]; intros p q; cbn [year_loop chained]; [exact I|].
   cbn [em_prev_off em_prev_year em_year]. repeat split.
@@ -134,7 +135,7 @@ Qed.
 Lemma chained_split l : forall p q pre e post, chained p q l -> l = pre ++ e :: post ->
   match rev pre with
   | [] => em_prev_off e = p /\ (pe = true -> em_prev_year e = q)
-  | e' :: _ => em_prev_off e = em_return lang exs e' /\ (pe = true -> em_prev_year e = em_year e')
+  | e' :: _ => em_prev_off e = em_return lang yg exs e' /\ (pe = true -> em_prev_year e = em_year e')
   end.
 Proof.
   induction l as [|x l IH]; intros p q pre e post H E; [destruct pre; discriminate|].
